@@ -265,5 +265,28 @@ def check(run, ctx):
     for callee, var in (("lint_files", "files"), ("lint_files_parallel", "files")):
         c = next((n for n in inline.flat_nodes(repo, el) if is_call_named(n, callee)), None)   # dispatch helpers inlined, parameters substituted
         (run.ok(W5, f"execute_linting_on_paths -> {callee}", f"receives `{var}` unchanged") if c is not None and c.args and isinstance(c.args[0], ast.Name) and c.args[0].id == var else run.finding(W5, "execute_linting_on_paths", f"arg:{callee}", f"{callee} does not receive the unfiltered file group", el.loc))
+    W6 = run.rule("W6", "repository ignore patterns reach the matcher as written: between reading .thailintignore / the `ignore:` list and matching, a pattern is only trimmed of surrounding whitespace", floor=2,
+                  decides="a pattern such as `.tools/**` or `../shared/` excludes what it names - no character of it is stripped, replaced or case-folded on the way")
+    lr = repo.func("src.linter_config.ignore._load_repo_ignores")
+    loaders = [lr] + [repo.funcs[q] for q in cg.reach([lr.qual], resolved_only=True) if q in repo.funcs and q != lr.qual and repo.funcs[q].module.name.startswith("src.")]
+    REWRITE = {"lstrip", "rstrip", "strip", "replace", "removeprefix", "removesuffix", "lower", "upper", "casefold", "translate", "normpath", "sub"}
+    n_w6 = 0
+    for f in sorted(loaders, key=lambda x: x.qual):
+        for n in ast.walk(f.node):
+            if not (isinstance(n, ast.Call) and isinstance(n.func, ast.Attribute) and n.func.attr in REWRITE):
+                continue
+            n_w6 += 1
+            sym = f"{f.qual.replace('src.', '', 1)}:{norm(n)[:40]}"
+            if n.func.attr in ("strip", "lstrip", "rstrip") and not n.args and not n.keywords:
+                run.ok(W6, sym, "whitespace trim")
+            elif n.func.attr in ("strip", "lstrip", "rstrip") and n.args and isinstance(repo.fold(f.module, n.args[0]), str) and not repo.fold(f.module, n.args[0]).strip():
+                run.ok(W6, sym, "whitespace trim")
+            else:
+                extra = ""
+                if n.func.attr in ("strip", "lstrip", "rstrip") and n.args and isinstance(repo.fold(f.module, n.args[0]), str):
+                    extra = f" (str.{n.func.attr}({repo.fold(f.module, n.args[0])!r}) removes every leading/trailing character of that set, not the prefix: `.tools/**` becomes `tools/**`)"
+                run.finding(W6, f.qual.replace("src.", "", 1), f"pattern-rewritten:{norm(n)[:50]}", f"{f.qual}: `{norm(n)[:80]}` rewrites an ignore pattern on its way from the configuration to the matcher{extra}: the files the user named are linted and other files are skipped", f"{f.module.rel}:{n.lineno}")
+    run.ok(W6, "_load_repo_ignores", f"{len(loaders)} functions between the pattern files and the matcher examined, {n_w6} string-rewriting calls")
+    run.require(len(loaders) >= 4, f"W6: only {len(loaders)} functions reachable from _load_repo_ignores")
     run.extra["call_resolution"] = f"{cg.n_resolved}/{cg.n_calls}"
     return __doc__
